@@ -374,7 +374,12 @@ pub fn exec_variant(world: &World, v: &Variant) -> Obs {
     let root_str = r.to_string_lossy().to_string();
 
     if entry == Entry::LspTokens {
-        return exec_lsp_tokens(v);
+        // also a forked child: the server reads the files at initialize
+        let v2 = v.clone();
+        return match crate::seam::run_forked(move || exec_lsp_tokens(&v2)) {
+            Ok(obs) => obs,
+            Err(why) => Obs { outcome: Outcome::Panic(why), diags: vec![], probes: BTreeMap::new(), fs_points: vec![], faults_fired: vec![], source_orders: vec![], dir_orders: vec![], printed: Printed::default() },
+        };
     }
     // the whole simulated process runs in a forked child (fresh process-global state, isolated
     // crashes); inside it the entry point runs on a fresh thread so that the hash keys of std are
